@@ -14,6 +14,21 @@ class Unsupported(Exception):
     pass
 
 
+def raw_string_end(src, i):
+    """if a raw string literal r#*"…"#* starts at i, return the index just past it, else None"""
+    if src[i] != "r" or (i > 0 and (src[i - 1].isalnum() or src[i - 1] == "_")):
+        return None
+    j = i + 1
+    while j < len(src) and src[j] == "#":
+        j += 1
+    if j >= len(src) or src[j] != '"' or (j == i + 1 and False):
+        return None
+    hashes = j - (i + 1)
+    close = '"' + "#" * hashes
+    k = src.find(close, j + 1)
+    return len(src) if k < 0 else k + len(close)
+
+
 def strip_comments(src):
     out = []
     i = 0
@@ -26,6 +41,10 @@ def strip_comments(src):
         elif src.startswith("/*", i):
             j = src.find("*/", i + 2)
             i = n if j < 0 else j + 2
+        elif c == "r" and raw_string_end(src, i) is not None and src[i + 1] in '#"':
+            j = raw_string_end(src, i)
+            out.append(src[i:j])
+            i = j
         elif c == '"':
             j = i + 1
             while j < n and src[j] != '"':
@@ -57,6 +76,9 @@ def match_brace(src, i, open_="{", close="}"):
     j = i
     while j < n:
         c = src[j]
+        if c == "r" and j + 1 < n and src[j + 1] in '#"' and raw_string_end(src, j) is not None:
+            j = raw_string_end(src, j)
+            continue
         if c == '"':
             j += 1
             while j < n and src[j] != '"':
